@@ -1,9 +1,10 @@
 """C01 — local delivery is exactly-once, content-faithful, order-preserving."""
 from . import inbox_common as IC
+from . import proc_common as PC
 from .inbox_common import TRUSTED_BASE, ASSUMPTIONS
 
-COQ_FILES = IC.COQ_FILES
-THEOREMS = ["C01_conservation", "C01_conservation_pill_free", "C01_program_order", "C01_program_order_delivered", "C01_exactly_once_in_order", "C01_delivered_permutation", "C0123_oracle_sound", "C14_ring_refines_fifo"]
+COQ_FILES = IC.COQ_FILES + ["Proc.v", "ProcExec.v", "ProcProofs.v", "PropsProc.v"]
+THEOREMS = ["C01_conservation", "C01_conservation_pill_free", "C01_program_order", "C01_program_order_delivered", "C01_exactly_once_in_order", "C01_delivered_permutation", "C0123_oracle_sound", "C14_ring_refines_fifo", "C05_delivered_in_send_order_exactly_once", "C13_context_shows_sender"]
 RULE = ("configurations (senders x numbered messages, capacity 1-2, Start racing or not, optional pill) of the real "
         "actor/inbox.go run under the deterministic scheduler: all schedules by DFS with visited-state pruning for the small "
         "ones, seeded random walks for the larger; each kept execution is replayed step by step in the Coq model and every "
@@ -18,4 +19,12 @@ class Part(IC.InboxSched):
     prop = 1
 
 
-PARTS = [Part(), IC.Deliver()]
+class Scripted(PC.ProcPart):
+    """exactly-once and order at the receiver across batches, pills and restarts (process.Invoke's
+    bookkeeping): judged by the C05/C01 conservation predicate (delivered is a subsequence of the
+    sends, no payload twice, every send delivered or dead-lettered)"""
+    name = "scripted"
+    prop = 5
+
+
+PARTS = [Part(), IC.Deliver(), Scripted()]
